@@ -752,17 +752,17 @@ using `iterator_next_tie` for the step — so it holds for every list length, wi
 
 theorem loop1_exit (node iter : BitVec 64) (fuel : Nat) (d : Bool) (r : BitVec 8) (mem : Mem) :
     list_contains.loop1 node iter (fuel + 1) d r mem 0#64 = ⟨false, r, mem, 0#64, false⟩ := by
-  simp [list_contains.loop1]
+  simp [list_contains.loop1, list_contains.loop1.step]
 
 theorem loop1_found (node iter : BitVec 64) (fuel : Nat) (d : Bool) (r : BitVec 8) (mem : Mem) (hn : node ≠ 0#64) :
     list_contains.loop1 node iter (fuel + 1) d r mem node = ⟨true, 1#8, mem, node, false⟩ := by
-  simp [list_contains.loop1, hn]
+  simp [list_contains.loop1, list_contains.loop1.step, hn]
 
 theorem loop1_next (node iter : BitVec 64) (fuel : Nat) (d : Bool) (r : BitVec 8) (mem : Mem) (curr : BitVec 64)
     (h0 : curr ≠ 0#64) (hn : curr ≠ node) :
     list_contains.loop1 node iter (fuel + 1) d r mem curr =
       list_contains.loop1 node iter fuel false r (list_iterator_next iter mem).mem (list_iterator_next iter mem).ret := by
-  simp [list_contains.loop1, list_iterator_next, h0, hn]
+  simp [list_contains.loop1, list_contains.loop1.step, list_iterator_next, h0, hn]
 
 /-- the loop of `list_contains`, any number of iterations: whenever the model's loop finishes within the fuel, so does the generated
     one, with the model's answer, the model's iterator left in the iterator object, and the heap untouched -/
@@ -914,13 +914,13 @@ theorem remove_tie (L : Lay) (hL : L.WF) (mem : Mem) (h : Heap) (hR : Rep L mem 
 theorem sorted_stop (node : BitVec 64) (f : BitVec 64 → BitVec 64 → BitVec 32) (iter : BitVec 64) (fuel : Nat) (mem : Mem)
     (curr : BitVec 64) (hc : BitVec.sle 0#32 (f node curr) = false) :
     list_insert_sorted.loop1 node f iter (fuel + 1) mem curr = ⟨mem, curr, false⟩ := by
-  simp [list_insert_sorted.loop1, hc]
+  simp [list_insert_sorted.loop1, list_insert_sorted.loop1.step, hc]
 
 theorem sorted_next (node : BitVec 64) (f : BitVec 64 → BitVec 64 → BitVec 32) (iter : BitVec 64) (fuel : Nat) (mem : Mem)
     (curr : BitVec 64) (hc : BitVec.sle 0#32 (f node curr) = true) :
     list_insert_sorted.loop1 node f iter (fuel + 1) mem curr =
       list_insert_sorted.loop1 node f iter fuel (list_iterator_next iter mem).mem (list_iterator_next iter mem).ret := by
-  simp [list_insert_sorted.loop1, list_iterator_next, hc]
+  simp [list_insert_sorted.loop1, list_insert_sorted.loop1.step, list_iterator_next, hc]
 
 /-- the comparator the C code calls agrees in sign with the model's -/
 def CmpAgrees (L : Lay) (f : BitVec 64 → BitVec 64 → BitVec 32) (cmp : Node → Node → Int) : Prop :=
